@@ -29,7 +29,7 @@ def main():
     suite = "--no-suite" not in sys.argv
     tier = sys.argv[sys.argv.index("--tier") + 1] if "--tier" in sys.argv else "quick"
     meta = json.loads((sd / "meta.json").read_text()) if (sd / "meta.json").exists() else {}
-    pid = meta.get("property") or re.search(r"seed_(C\d\d)", str(sd)).group(1)
+    pid = meta.get("property") or re.search(r"seed\d*_(C\d\d)", str(sd)).group(1)
     labelled = pid
     if "--check" in sys.argv:
         pid = sys.argv[sys.argv.index("--check") + 1]
